@@ -121,6 +121,10 @@ size_t item_group::clear(const metatype *ref)
 		_items = item_array<metatype>();
 		return remove ? true : false;
 	}
+	// items may be shared with group clones
+	if (!_items.detach()) {
+		return 0;
+	}
 	long empty = 0;
 	for (auto &it : _items) {
 		metatype *curr = it.instance();
